@@ -762,8 +762,13 @@ class Macro(Element):
                 newnodes.append(item)
                 continue
             if item.level < Node.PAR_LEVEL:
+                # Sections absorb what follows them, but a section-level
+                # command such as \printindex does not: keep grouping
                 newnodes.append(item)
-                break
+                par = self.ownerDocument.createElement(parname)
+                par.parentNode = self
+                newnodes.append(par)
+                continue
             # Block level elements get their own paragraph
             if item.blockType:
                 par = self.ownerDocument.createElement(parname)
